@@ -43,6 +43,7 @@ def gen_lines(rng, tier):
             # near misses of the GREASE pattern (both low nibbles 0xA, bytes different; one bit / one byte off)
             space.update(((a & 0xff00) | (b & 0xff)) % (256 ** w) for a in GREASE2 for b in GREASE2[::5])
             space.update((x ^ d) % (256 ** w) for x in GREASE2 for d in (0x0001, 0x0100, 0x0010, 0x1000, 0x00ff, 0xff00))
+            space.update(GREASE1)    # one-byte GREASE values are ordinary codes in a two-byte field
             space.update(x + d for x in codes for d in (-1, 1) if 0 <= x + d < 256 ** w)
             space.update(rng.randrange(256 ** w) for _ in range(n_rand))
             space = sorted(space)
@@ -54,7 +55,7 @@ def gen_lines(rng, tier):
             lines.append('penum %s %s' % (t, h[:-2]))
             lines.append('penum %s %s%02x' % (t, h, rng.getrandbits(8)))
     for g in (1, 2):
-        near = [((a & 0xff00) | (b & 0xff)) for a in GREASE2 for b in GREASE2[::3]] + [x ^ d for x in GREASE2 for d in (1, 0x100, 0x10, 0x1000)]
+        near = [((a & 0xff00) | (b & 0xff)) for a in GREASE2 for b in GREASE2[::3]] + [x ^ d for x in GREASE2 for d in (1, 0x100, 0x10, 0x1000)] + list(GREASE1)
         for code in (GREASE1 if g == 1 else GREASE2 + near) + [rng.randrange(256 ** g) for _ in range(100)]:
             lines.append('pinv %d %s' % (g, code.to_bytes(g, 'big').hex()))
         lines.append('pinv %d %s' % (g, ''))
